@@ -32,6 +32,11 @@ def restricted_ok(case, obs):
         files.append((os.path.normpath(os.path.join(d, rel)), os.path.normpath(os.path.join(d, g[1])), d, g[1]))
     if mode == "name":
         return True
+    # a custom answer is a destination like a generated one (for whichever file the prompt is about)
+    for a in case["answers"]:
+        if a[0] == "custom":
+            for d in sorted({d for _, _, d, _ in files}):
+                files.append((None, os.path.normpath(os.path.join(d, a[1])), d, a[1]))
     dsts = [dst for src, dst, _, _ in files if src != dst]
     for src, dst, d, g in files:
         if src == dst:
@@ -54,7 +59,8 @@ def restricted_ok(case, obs):
                 return False
             # a directory whose destination is taken while one of its ancestors is renamed too
             for osrc, odst, _, _ in files:
-                if osrc != odst and src.startswith(osrc + "/") and (dst in before or dsts.count(dst) > 1):
+                if src is not None and osrc is not None and osrc != odst and src.startswith(osrc + "/") \
+                        and (dst in before or dsts.count(dst) > 1):
                     return False
     return True
 
